@@ -1,5 +1,7 @@
 import BtcModel.Driver.Wire
 import BtcModel.Driver.Enc
+import BtcModel.Driver.Tx
+import BtcModel.Driver.Sig
 /-!
 `btcdriver [flag ...]` — line protocol: one operation per input line (space separated tokens),
 one result line per operation: `spec | impl [| extra]`, `bad-op` for an unknown or malformed
@@ -8,7 +10,7 @@ operation.  The flags name the deviations (`Btc.Dev`) that are switched on in `i
 open Btc Btc.Driver
 
 def dispatch (D : Dev) (toks : List String) : String :=
-  match (handleWire D toks <|> handleEnc D toks) with
+  match (handleWire D toks <|> handleEnc D toks <|> handleTx D toks <|> handleSig D toks) with
   | some r => r
   | none => "bad-op"
 
